@@ -89,6 +89,30 @@ static Result run_case (const Case &c)
 	if (cr != 0) { if (path) unlink (fname.c_str ()) ; return fail ("close_failed", std::to_string (cr)) ; }
 	std::vector<uint8_t> bytes ;
 	if (path) read_file (fname, bytes) ; else bytes = mem.data ;
+	// SF_ENDIAN_CPU means "the byte order of this machine": the file must be, byte for byte, the one the explicit option for
+	// the host's order produces (containers that report their default order as FILE would otherwise hide a wrong choice)
+	if (!path && (format & SF_FORMAT_ENDMASK) == SF_ENDIAN_CPU)
+	{	const uint16_t one = 1 ; int host = *(const uint8_t *) &one ? SF_ENDIAN_LITTLE : SF_ENDIAN_BIG ;
+		SF_INFO ti ; memset (&ti, 0, sizeof (ti)) ; ti.format = (format & ~SF_FORMAT_ENDMASK) | host ; ti.channels = ch ; ti.samplerate = rate ; ti.frames = ff ;
+		MemFile tm ; SNDFILE *tf = sf_format_check (&ti) ? open_mem (tm, SFM_WRITE, &ti) : nullptr ;
+		if (tf)
+		{	Rng tr (seed ^ 0xC04) ; std::vector<long long> tp ;
+			if (split && N > 0) tp = make_partition (tr, N, nominal_block (format, ch, rate), ch, 2) ; else if (N > 0) tp.push_back (N) ;
+			long long td = 0 ;
+			for (long long p : tp)
+			{	long long fr = p < 0 ? -p : p ; int t = split == 2 ? (int) tr.below (4) : t0 ; int ts = stype_size (t) ;
+				Block b ((size_t) fr * ch * ts) ; fill_any (b.p, t, (size_t) fr * ch, style, seed + (uint64_t) td) ;
+				if (p < 0) sf_write_t (tf, t, b.p, fr * ch) ; else sf_writef_t (tf, t, b.p, fr) ;
+				td += fr ;
+			}
+			sf_close (tf) ;
+			if (tm.data != bytes)
+			{	size_t i = 0 ; while (i < tm.data.size () && i < bytes.size () && tm.data [i] == bytes [i]) i ++ ;
+				return fail ("cpu_endian_ne_host_endian", "file written with SF_ENDIAN_CPU (" + std::to_string (bytes.size ()) + " bytes) differs from the one written with the host's order named explicitly (" + std::to_string (tm.data.size ()) + " bytes), first at byte " + std::to_string (i)) ;
+			}
+			r.classes.push_back ("cpu_endian_twin:compared") ;
+		}
+	}
 	// re-open
 	SF_INFO ri ; memset (&ri, 0, sizeof (ri)) ;
 	if (maj == SF_FORMAT_RAW) { ri.format = format ; ri.channels = ch ; ri.samplerate = rate ; }
